@@ -321,7 +321,8 @@ let header_case (toks : string list) : string =
      | "expect" -> twice (fun x -> Some (M.expect_parse x)) M.expect_write
      | "cache-control" -> twice M.cc_parse_top M.cc_write
      | "host" -> twice M.host_parse M.host_write
-     | "location" | "server" | "user-agent" | "authorization" | "access-control-allow-origin" | "access-control-allow-headers"
+     | "server" -> twice (fun x -> Some (M.server_parse x)) M.server_write
+     | "location" | "user-agent" | "authorization" | "access-control-allow-origin" | "access-control-allow-headers"
      | "access-control-expose-headers" | "access-control-allow-methods" -> twice (fun x -> Some x) (fun x -> x)
      | _ -> "IMPL-ONLY")
   | "CC" :: ds ->
@@ -343,7 +344,12 @@ let header_case (toks : string list) : string =
     (match M.host_parse w with
      | None -> "HO " ^ hex_of_bytes w ^ " err"
      | Some (h2, p2) -> Printf.sprintf "HO %s %s %s" (hex_of_bytes w) (hex_of_bytes h2) (decimal_of_n p2))
-  | "SV" :: _ -> "IMPL-ONLY"
+  | "SV" :: toks ->
+    let ts = List.map bytes_of_hex toks in
+    let w = M.server_write ts in
+    let back = M.server_parse w in
+    Printf.sprintf "SV %s %s %d%s" (hex_of_bytes w) (hex_of_bytes (M.server_write back)) (List.length back)
+      (String.concat "" (List.map (fun t -> " " ^ hex_of_bytes t) back))
   | "L" :: msg :: names ->
     let st = M.feed_raw M.pstate_init (bytes_of_hex msg) in
     (match M.parse_inst M.KRequest st with
